@@ -2060,6 +2060,8 @@ fuzzy_info = {json.dumps(ret)};
         my_workflowAttributes = self.workflowAttributes
 
         errors = []
+        # VV: (reference, value) pairs of the references that are substituted in the command line
+        substitutable = []
 
         for reference in self.dataReferences:
             graphLogger.debug("Reference: \"%s\"" % reference)
@@ -2113,50 +2115,55 @@ fuzzy_info = {json.dumps(ret)};
 
             graphLogger.debug("Reference value: %s" % reference_value)
 
-            errors = []
-
             if reference.method in [DataReference.Output, DataReference.LoopOutput]:
                 # VV: The reference value is in fact the CONTENTS of the file that the data-reference points to
-                reference_value = reference_value or ""
-                if arguments.find(reference.absoluteReference) != -1:
-                    arguments = arguments.replace(reference.absoluteReference, reference_value)
-                elif arguments.find(reference.relativeReference) != -1:
-                    arguments = arguments.replace(reference.relativeReference, reference_value)
-                else:
-                    if unused is not None:
-                        unused.append(experiment.model.errors.UnusedDataReferenceError(self.identification.identifier,
-                                                                                       reference,
-                                                "All declared references of type "
-                                                "'%s' must be used in component command line ("
-                                                "could find neither \"%s\" nor \"%s\" in \"%s\"" % (
-                                                    reference.method,
-                                                    reference.absoluteReference, reference.relativeReference,
-                                                    arguments
-                                         )))
-                    message = 'Could not locate reference %s in arguments %s' % (
-                        reference.absoluteReference, arguments
-                    )
-                    graphLogger.warning(message)
+                substitutable.append((reference, reference_value or ""))
             elif reference_value is not None and reference.method in [DataReference.Ref, DataReference.LoopRef]:
                 # VV: The reference_value is definitely a path because it's a "ref" type
-                path = reference_value
-                if arguments.find(reference.absoluteReference) == -1 and arguments.find(reference.relativeReference) == -1:
-                    if unused is not None:
-                        unused.append(experiment.model.errors.UnusedDataReferenceError(self.identification.identifier,
-                                                                                       reference,
-                                                "All declared references of type "
-                                                "'%s' must be used in component command line("
-                                                "could find neither \"%s\" nor \"%s\" in \"%s\"" % (
-                                                    reference.method,
-                                                    reference.absoluteReference, reference.relativeReference,
-                                                    arguments
-                                         )))
-                else:
-                    # Resolve the reference in the command line
-                    if arguments.find(reference.absoluteReference) == -1:
-                        arguments = arguments.replace(reference.relativeReference, path)
-                    else:
-                        arguments = arguments.replace(reference.absoluteReference, path)
+                substitutable.append((reference, reference_value))
+
+        # Substitute every reference in ONE pass over the original argument string, trying longer spellings
+        # first. Replacing one reference after the other would also rewrite text that is part of a longer
+        # reference (A:ref inside BA:ref or inside stage0.A:ref) or of an already inserted value, and would
+        # make the result depend on the order in which the references are declared.
+        my_stage = self.identification.stageIndex
+
+        def spellings_of(reference):
+            spellings = [reference.absoluteReference]
+            # The relative spelling denotes a producer in the stage of the receiver (or a direct reference)
+            if reference.stageIndex is None or reference.stageIndex == my_stage:
+                spellings.append(reference.relativeReference)
+            return spellings
+
+        substitutions = {}
+        for reference, reference_value in substitutable:
+            for spelling in spellings_of(reference):
+                substitutions.setdefault(spelling, reference_value)
+
+        used = set()
+        original_arguments = arguments
+        if substitutions:
+            pattern = re.compile('|'.join(
+                re.escape(spelling) for spelling in sorted(substitutions, key=len, reverse=True)))
+
+            def substitute(match):
+                used.add(match.group(0))
+                return substitutions[match.group(0)]
+
+            arguments = pattern.sub(substitute, original_arguments)
+
+        for reference, _ in substitutable:
+            if not used.intersection(spellings_of(reference)):
+                message = 'Could not locate reference %s in arguments %s' % (
+                    reference.absoluteReference, original_arguments)
+                graphLogger.warning(message)
+                if unused is not None:
+                    unused.append(experiment.model.errors.UnusedDataReferenceError(
+                        self.identification.identifier, reference,
+                        "All declared references of type '%s' must be used in component command line ("
+                        "could find neither \"%s\" nor \"%s\" in \"%s\"" % (
+                            reference.method, reference.absoluteReference, reference.relativeReference,
+                            original_arguments)))
 
         # Check for unresolved/undeclared references in CL - this is anything of form :ref :link
 
